@@ -1,4 +1,5 @@
 import ArgoVerif.Props.SchedCommon
+import ArgoVerif.Proofs.Join
 import ArgoVerif.Gen.Consts
 /-
 Props.C12 — work-unit lifecycle: the observable state follows the state machine; exit / cancel terminate; a unit is
@@ -126,5 +127,36 @@ example :
 /-! ## widths of the counters modelled as unbounded numbers (generated from the headers on every run) -/
 /-- the request word of a work unit (JOIN / CANCEL / MIGRATE bits) is 4 bytes wide in this tree: the unbounded model agrees with the C field below 2^31 -/
 example : ArgoVerif.Gen.Consts.bytesThreadRequest = 4 := by decide
+
+
+/-! ## the exit path of a ULT and the join hand-shake (Model.Join): "a unit whose function has returned terminates" -/
+namespace Exit
+
+/-- **a unit in its exit path waits only for a joiner that is committed**: the only wait in the exit path is for `p_link`
+after the unit found the JOIN bit already set; then the joiner has won the hand-shake and is between its `fetch_or` and the
+store of the link (no step of the joiner leaves that segment except towards the store) or has published the link — the
+JOIN bit is never withdrawn, so the unit does reach TERMINATED -/
+theorem exit_waits_only_for_committed_joiner (s : Model.Join.St) (h : Model.Join.machine.Reachable s) (hs : s.tpc = Model.Join.TPc.spin) :
+    s.link = true ∨ s.jpc = Model.Join.JPc.blk ∨ s.jpc = Model.Join.JPc.lnk ∨ s.jpc = Model.Join.JPc.xlnk := by
+  have hi := Model.Join.inv_reachable s h
+  have hw := hi.spinWon hs
+  have hr := hi.tBeforeResumes (by simp [Model.Join.TBefore, hs])
+  have hn := hi.notStarted
+  have hp := hi.pastWon
+  have ht := hi.termIff
+  have hsus := hi.suspended
+  cases hj : s.jpc <;> simp_all [Model.Join.JSusp]
+
+/-- ... and from every reachable state of the exit path some step other than a repeated poll is enabled -/
+theorem exit_path_progress (s : Model.Join.St) (h : Model.Join.machine.Reachable s) (ht : s.tpc ≠ Model.Join.TPc.run) (hd : s.tpc ≠ Model.Join.TPc.done) :
+    Model.Join.canProgress s = true := by
+  unfold Model.Join.canProgress
+  simp [hd]
+
+/-- non-vacuity: the target finds the bit set while the joiner has not published yet, waits, and is released -/
+example : (Model.Join.machine.run Model.Join.init [Model.Join.Ev.jCall true, .jLoadState false, .jFetchOr false, .tExit, .tLoadLink false, .tFetchOr true,
+      .tLoadLink false]).map (fun s => decide (s.tpc = Model.Join.TPc.spin ∧ s.jpc = Model.Join.JPc.blk ∧ s.link = false)) = some true := by decide
+
+end Exit
 
 end ArgoVerif.Props.C12
